@@ -27,9 +27,67 @@ def signature(pred, cfg, key, outs):
     return sig
 
 
+def tree_digest(tag):
+    """Digest of everything a configuration run depends on: the implementation files of the
+    working tree, the specs, the harness, the seed and the configuration tag."""
+    import hashlib
+    from .env import REPO, VERIF
+    h = hashlib.sha256()
+    roots = [os.path.join(REPO, "pulser-core", "pulser"),
+             os.path.join(REPO, "pulser-simulation", "pulser_simulation"),
+             os.path.join(VERIF, "spec"), os.path.join(VERIF, "harness")]
+    for root in roots:
+        for dp, dn, fn in sorted(os.walk(root)):
+            dn.sort()
+            if "__pycache__" in dp:
+                continue
+            for f in sorted(fn):
+                if f.endswith(".pyc"):
+                    continue
+                fp = os.path.join(dp, f)
+                h.update(fp.encode())
+                with open(fp, "rb") as fh:
+                    h.update(fh.read())
+    h.update(f"{tag}|{seed()}".encode())
+    return h.hexdigest()[:24]
+
+
 def run_config(prop, preds, cfg, tag, simulate=None, report=None):
-    """Returns dict with counts and the list of candidate violations
-    [(pred, key, outs, source)] for predicates starting with one of `preds`."""
+    """Memoised on the content of the working tree (+ specs, harness, seed, configuration):
+    several properties are decided on the same configurations, and a run is a pure function
+    of those inputs.  VERIF_NOCACHE=1 disables the memo."""
+    import pickle
+    cdir = os.path.join(WORK, "cache")
+    os.makedirs(cdir, exist_ok=True)
+    cpath = os.path.join(cdir, f"{tag}-{tree_digest(tag)}.pkl")
+    if os.path.exists(cpath) and not os.environ.get("VERIF_NOCACHE"):
+        try:
+            with open(cpath, "rb") as fh:
+                r = pickle.load(fh)
+            r["cache_hit"] = True
+        except Exception:  # noqa: BLE001
+            r = None
+    else:
+        r = None
+    if r is None:
+        r = _run_config(prop, cfg, tag, simulate)
+        r["cache_hit"] = False
+        # prune old cache entries of this tag
+        for f in os.listdir(cdir):
+            if f.startswith(tag + "-") and os.path.join(cdir, f) != cpath:
+                os.remove(os.path.join(cdir, f))
+        with open(cpath + ".tmp", "wb") as fh:
+            pickle.dump(r, fh)
+        os.replace(cpath + ".tmp", cpath)
+    r = dict(r)
+    r["cands"] = [c for c in r["all_cands"] if c[0].startswith(tuple(preds))]
+    return r
+
+
+def _run_config(prop, cfg, tag, simulate=None):
+    """Returns dict with counts and the list of all candidate violations
+    [(pred, key, outs, source)]."""
+    preds = ("C",)
     work = os.path.join(WORK, prop, tag)
     shutil.rmtree(work, ignore_errors=True)
     res, expect = engine.explore(cfg, work, simulate=simulate)
@@ -76,10 +134,11 @@ def run_config(prop, preds, cfg, tag, simulate=None, report=None):
                     seen.add((pred, key))
                     outs = tuple(s["out"] for s in traces[r["t"] - 1]["steps"][:r["l"]])
                     cands.append((pred, key, outs, "trace"))
+    res.tail = res.tail[-20:]
     return {"tag": tag, "tlc": res, "expect": len(expect), "leaves": leaves, "steps": steps,
             "compared": compared, "mismatches": len(mism), "mismatch_samples": mism[:3],
             "drift_lines": drift, "traces_checked": traces_checked, "tv_states": tv_states,
-            "cands": cands,
+            "all_cands": cands,
             "sample_keys": [k for k in list(expect)[:: max(1, len(expect) // 3)]][:3]}
 
 
@@ -140,6 +199,7 @@ def decide(prop, preds, runs, tier, t0, level_note=""):
                         "tlc_generated": r["tlc"].generated, "tlc_s": round(r["tlc"].wall, 1),
                         "depth": cfg.max_depth, "calls_in_lattice": len(cfg.calls),
                         "leaves_replayed": r["leaves"], "mismatches": r["mismatches"],
+                        "memoised_on_tree_digest": r.get("cache_hit", False),
                         "mismatch_samples": r["mismatch_samples"]} for cfg, r in runs],
         "checker_cmd": runs[0][1]["tlc"].cmd if runs else "",
     }
